@@ -765,6 +765,12 @@ class Inventory:
                         ok = True
                         detail = "cursor %s is bounded by the length of the slice argument (proved invariant) and grows by >= 1 on every back edge" % show(t, fa.names)
                         break
+            if not ok:
+                # length-driven: the loop stays exactly while list.len() < X (X fixed during the loop) and every way back to the head pushes
+                # onto that list once - len grows by one per iteration, so at most X iterations
+                okl, dl = _length_driven(f, fa, h, body)
+                if okl:
+                    ok, detail = True, dl
             self.discharge("T-loop", f, "loop@%s" % _loop_desc(f, fa, h), ok, detail, f.term(h).get("line", f.loc["line"]), "rule")
 
 
@@ -905,9 +911,24 @@ def value_before_borrow(fa, b, obj):
     if obj.op == "loc":
         L = obj.args[1]
         idx = len(blk["stmts"])
+        found = False
         for (i, l, kind) in fa._defs_in_block.get(b, ()):
             if l == L and kind == "borrow":
                 idx = min(idx, i)
+                found = True
+        if not found:
+            # the receiver was borrowed in an earlier block (`v.push(par.parse()?)`: the borrow precedes the argument's evaluation): the
+            # nearest dominating borrow, provided every other definition of the local dominates that borrow too (nothing in between)
+            ds = [d_ for d_ in fa.defs(L)]
+            bs = [d_ for d_ in ds if d_[2] == "borrow" and d_[0] != b and f.dominates(d_[0], b)]
+            if bs:
+                near = [c_ for c_ in bs if all(f.dominates(o_[0], c_[0]) for o_ in bs)]
+                if len(near) >= 1:
+                    c_ = sorted(near, key=lambda d_: d_[1])[0]
+                    loops_c = {h_ for h_, body_ in f.loops().items() if c_[0] in body_}
+                    loops_b = {h_ for h_, body_ in f.loops().items() if b in body_}
+                    if loops_c == loops_b:
+                        return fa.val(L, (c_[0], c_[1]))
         return fa.val(L, (b, idx))
     # through a pointer (self.0): the memory value at the call
     return fa.read_obj(obj, (b, len(blk["stmts"])))
@@ -922,6 +943,42 @@ def vec_object(recv, fa):
 
 
 NEW_FNS = ("tinyvec::ArrayVec::<A>::new", "util::data_vec::DataVec::<T, N>::new", "util::Df88591String::<N>::new", "util::array_string::ArrayString::<N>::new")
+
+
+def _length_driven(f, fa, h, body):
+    import looprules
+    from algebra import fact_of_guard
+    from terms import subterms
+    PUSHES = ("tinyvec::ArrayVec::<A>::push", "util::data_vec::DataVec::<T, N>::push", "util::Df88591String::<N>::push")
+    for x in sorted(body):
+        t = f.term(x)
+        if t["k"] != "switch":
+            continue
+        stay = [s_ for s_ in f.succ(x) if s_ in body]
+        leave = [s_ for s_ in f.succ(x) if s_ not in body]
+        if len(stay) != 1 or not leave:
+            continue
+        for g in fa.edge_guard(x, stay[0]):
+            fc = fact_of_guard(g)
+            if fc[0] != "Lt" or not (fc[1].op == "call" and fc[1].args[0] in libmodel.LEN_FNS):
+                continue
+            v = fc[1].args[1][0]
+            while v.op in ("ref", "mem", "memval"):
+                v = v.args[0]
+            if not (v.op == "phi" and v.args[2] == h):
+                continue
+            L = v.args[1]
+            if any(y.op == "phi" and y.args[2] == h for y in subterms(fc[2])):
+                continue          # the bound itself changes in the loop
+            pushes = [pb for pb in body if f.term(pb)["k"] == "call" and callee_of(f.term(pb)) in PUSHES
+                      and vec_object(fa.call_args(pb)[0], fa).op == "loc" and vec_object(fa.call_args(pb)[0], fa).args[1] == L]
+            if len(pushes) != 1 or not f.dominates(x, pushes[0]):
+                continue
+            okc, dc = looprules.action_complete(f, fa, pushes[0])
+            okm, dm = looprules.only_mutated_by(f, L, {pushes[0]})
+            if okc and okm:
+                return True, "stays while %s.len() < %s; every iteration pushes once onto that list" % (fa.names.get(L, "_%d" % L), show(fc[2], fa.names)[:60])
+    return False, ""
 
 
 def _threaded_accumulator(f, fa, iv, b, L, init, cap):
@@ -1002,7 +1059,22 @@ def push_safe(f, fa, iv, b, recv):
                         # len + k <= 0  => len <= -k
                         if -c[2] <= cap - 1:
                             return True, "dominated by len() <= %d with capacity %d" % (-c[2], cap)
-                    else:
+                    elif not symbolic and all(x.op != "call" or x.args[0] not in libmodel.CAP_FNS for x in d):
+                        # len + sum(q_x * x) + k <= 0  =>  len <= -k + sum(-q_x * x): bounded through the intervals of the other terms
+                        # (`while v.len() < n` under an earlier `n <= CAP` refusal)
+                        ub = -c[2]
+                        okb = True
+                        for x, qx in d.items():
+                            if x is a:
+                                continue
+                            ix = iv.interval(x, b)
+                            if ix is None:
+                                okb = False
+                                break
+                            ub += max(-qx * ix[0], -qx * ix[1])
+                        if okb and ub <= cap - 1:
+                            return True, "dominated by a test that bounds len() by %d with capacity %d" % (ub, cap)
+                    if len(d) != 1 and True:
                         # len + n - capacity() + k <= 0 with n >= 1: symbolic capacity (generic N)
                         caps = [x for x in d if x.op == "call" and x.args[0] in libmodel.CAP_FNS and x.args[1][0] is cur and d[x] == -1]
                         others = [x for x in d if x is not a and x not in caps]
